@@ -343,8 +343,333 @@ Section Protocol.
     rewrite R in R2. inversion R2; subst s2. apply subset_test_true; auto.
   Qed.
 
-  (* partial histories: a function that was given data and whose conditioners (transitively) were all
-     given data is consistent as well; stated for the common case "everything fitted" above *)
+  (* a function that is never given data keeps its start parameters, whatever else is fitted around it *)
+  Lemma do_fit_leaves_dataless : forall fuel j d (s s' : st), do_fit fuel j d s = Ok s' ->
+    (forall x, saved s' x = saved s x) /\ (forall k, k <> j -> saved s k = None -> params s' k = params s k).
+  Proof.
+    induction fuel as [|f IH]; intros j d s s' H; [discriminate|]. rewrite do_fit_unfold in H.
+    set (s1 := set_params s j d (F j d (params s j) (params s))) in *.
+    assert (L : forall rest acc r, fold_left (loop_body f j) rest (Ok acc) = Ok r ->
+              (forall x, saved r x = saved acc x) /\ (forall k, saved acc k = None -> params r k = params acc k)).
+    { induction rest as [|k rest IHr]; intros acc r Hr; [inversion Hr; subst; auto|].
+      cbn [fold_left] in Hr. unfold loop_body at 2 in Hr. cbn [bind] in Hr.
+      destruct (callback (do_fit f) k j acc) as [a2| |] eqn:Hc;
+        [|rewrite fold_fuel in Hr; discriminate|rewrite fold_assert in Hr; discriminate].
+      assert (C : (forall x, saved a2 x = saved acc x) /\ (forall k0, saved acc k0 = None -> params a2 k0 = params acc k0)).
+      { unfold DepProtocol.callback in Hc. destruct (negb (is_cond j k)); [discriminate|].
+        destruct (subset_as_written conds _ k); [|inversion Hc; subst; cbn; auto].
+        change (saved (set_may (add_fitted acc k j) k) k) with (saved acc k) in Hc.
+        destruct (saved acc k) as [dk|] eqn:Hk; [|inversion Hc; subst; cbn; auto].
+        unfold DepProtocol.fit_body in Hc. cbn in Hc. rewrite upd_same in Hc.
+        destruct (IH _ _ _ _ Hc) as [A B]. split.
+        - intros x. rewrite A. cbn. destruct (Nat.eq_dec x k) as [->|Hx]; [rewrite upd_same; auto|rewrite upd_other; auto].
+        - intros k0 Hk0. rewrite B; [reflexivity|congruence|]. cbn. rewrite upd_other; [exact Hk0|congruence]. }
+      destruct C as [C1 C2]. destruct (IHr a2 r Hr) as [D1 D2]. split.
+      - intros x. rewrite D1. apply C1.
+      - intros k0 Hk0. rewrite D2; [apply C2; exact Hk0|]. rewrite C1. exact Hk0. }
+    destruct (L _ _ _ H) as [A B]. split; [exact A|].
+    intros k Hk Hs. rewrite B; [cbn; apply upd_other; exact Hk|exact Hs].
+  Qed.
+
+  Lemma last_data_none : forall ops j acc, last_data ops j acc = None -> acc = None.
+  Proof. induction ops as [|[k d] ops IH]; intros j acc H; [exact H|]. cbn in H. apply IH in H.
+    destruct (Nat.eqb k j); [discriminate|exact H]. Qed.
+
+  Theorem dataless_keeps_start : forall ops (s s' : st), run ops s = Ok s' ->
+    forall j, last_data ops j (saved s j) = None -> params s' j = params s j.
+  Proof.
+    induction ops as [|[k d] ops IH]; intros s s' R j H; [inversion R; reflexivity|].
+    cbn [DepProtocol.run] in R. destruct (fit k d s) as [s1| |] eqn:Ef; try discriminate. cbn [bind] in R.
+    cbn [DepProtocol.last_data] in H. destruct (Nat.eqb k j) eqn:Ekj; [apply last_data_none in H; discriminate|].
+    apply Nat.eqb_neq in Ekj. pose proof (last_data_none _ _ _ H) as Hs.
+    assert (S1 : saved s1 j = saved s j /\ params s1 j = params s j).
+    { unfold DepProtocol.fit, DepProtocol.fit_body in Ef. destruct (may_fit (set_saved s k d) k).
+      - destruct (do_fit_leaves_dataless _ _ _ _ _ Ef) as [A B]. split.
+        + rewrite A. cbn. apply upd_other. auto.
+        + rewrite B; [reflexivity|auto|]. cbn. rewrite upd_other; auto.
+      - inversion Ef; subst. cbn. split; [apply upd_other; auto|reflexivity]. }
+    destruct S1 as [S1 S2]. rewrite <- S2. apply (IH s1 s' R j). rewrite S1. exact H.
+  Qed.
+
+  (* ================================================================================================
+     TRANSITIVE READING.  The real optimiser of j evaluates j's conditioners, which evaluate THEIR conditioners
+     (functools.partial all the way down): it reads the parameters of every ANCESTOR of j, not only of the direct
+     conditioners.  The development below assumes only that (F_extT), which is implied by F_ext, and proves the
+     history theorem for every function all of whose ancestors were given data. *)
+  Inductive anc : nat -> nat -> Prop :=
+  | anc_direct i m : In i (conds m) -> anc i m
+  | anc_up i c m : In c (conds m) -> anc i c -> anc i m.
+
+  Lemma anc_lt i m : anc i m -> i < m.
+  Proof. induction 1 as [i m H|i c m H _ IH]; [apply conds_lt; exact H|]. apply conds_lt in H. lia. Qed.
+
+  Lemma anc_trans i k m : anc i k -> anc k m -> anc i m.
+  Proof. intros A B. induction B as [k m H|k c m H _ IH]; [eapply anc_up; eauto|]. eapply anc_up; [exact H|]. apply IH. exact A. Qed.
+
+  Definition dstar (k m : nat) : Prop := m = k \/ anc k m.      (* m is k or a descendant of k *)
+
+  (* a strict descendant of j is a direct dependent of j or a descendant of one *)
+  Lemma anc_first j m : anc j m -> m < n -> exists k, In k (dependents j) /\ dstar k m.
+  Proof.
+    induction 1 as [j m H|j c m H A IH]; intros Hm.
+    - exists m. split; [apply dependents_spec; auto|left; reflexivity].
+    - pose proof (conds_lt _ _ H) as Hc. destruct IH as [k [Hk Dk]]; [lia|]. exists k. split; [exact Hk|].
+      right. destruct Dk as [->|Dk]; [apply anc_direct; exact H|eapply anc_up; eauto].
+  Qed.
+
+  Lemma anc_dec i : forall m, anc i m \/ ~ anc i m.
+  Proof.
+    intros m. induction m as [m IH] using lt_wf_ind.
+    assert (L : forall l, (forall c, In c l -> c < m) -> (exists c, In c l /\ (c = i \/ anc i c)) \/ ~ (exists c, In c l /\ (c = i \/ anc i c))).
+    { induction l as [|c l IHl]; intros Hl; [right; intros [c [[] _]]|].
+      destruct (Nat.eq_dec c i) as [->|Hci]; [left; exists i; split; [left; reflexivity|left; reflexivity]|].
+      destruct (IH c (Hl c (or_introl eq_refl))) as [A|A]; [left; exists c; split; [left; reflexivity|right; exact A]|].
+      destruct IHl as [[c' [Hc' B]]|B]; [intros x Hx; apply Hl; right; exact Hx|left; exists c'; split; [right; exact Hc'|exact B]|].
+      right. intros [c' [Hc' E]]. destruct Hc' as [<-|Hc'].
+      - destruct E as [E|E]; [congruence|exact (A E)].
+      - apply B. exists c'. split; auto. }
+    destruct (L (conds m) (fun c Hc => conds_lt _ _ Hc)) as [[c [Hc [->|A]]]|N].
+    - left. apply anc_direct. exact Hc.
+    - left. eapply anc_up; eauto.
+    - right. intros A. apply N. inversion A as [i' m' H|i' c m' H A']; subst; [exists i; auto|exists c; auto].
+  Qed.
+
+  Lemma dstar_dec k m : dstar k m \/ ~ dstar k m.
+  Proof. unfold dstar. destruct (Nat.eq_dec m k) as [->|H]; [left; left; reflexivity|]. destruct (anc_dec k m) as [A|A]; [left; right; exact A|right; tauto]. Qed.
+
+  Hypothesis F_extT : forall j d p e1 e2, (forall i, anc i j -> e1 i = e2 i) -> F j d p e1 = F j d p e2.
+
+  (* every function that j's optimiser reads (j's ancestors) and j itself have been handed data *)
+  Definition cl (s : st) m := forall a, dstar a m -> saved s a <> None.
+  Definition goodT (s : st) m := fitted s m -> cl s m -> consistent s m.
+
+  Lemma goodT_transfer (s s' : st) m :
+    (may_fit s' m = true -> may_fit s m = true) -> (forall a, dstar a m -> saved s' a = saved s a) -> params s' = params s ->
+    goodT s m -> goodT s' m.
+  Proof.
+    intros Hm Hs Hp G [Hf Hsv] Hc d Hd. rewrite Hp.
+    assert (Em : saved s' m = saved s m) by (apply Hs; left; reflexivity). rewrite Em in Hd, Hsv.
+    apply G; auto; [split; auto|]. intros a Ha. rewrite <- (Hs a Ha). apply Hc. exact Ha.
+  Qed.
+
+  Lemma goodT_set_params s j d v m : m <> j -> ~ anc j m -> goodT s m -> goodT (set_params s j d v) m.
+  Proof.
+    intros Hm Hj G Hf Hc d' Hd. cbn in *. rewrite upd_other by exact Hm.
+    destruct (G Hf Hc d' Hd) as [p Hp]. exists p. rewrite Hp. apply F_extT.
+    intros i Hi. rewrite upd_other; auto. intro; subst; auto.
+  Qed.
+
+  Theorem do_fit_specT : forall fuel j d s s', do_fit fuel j d s = Ok s' -> j < n ->
+      saved s j = Some d -> fc_ok s ->
+      (forall k, saved s' k = saved s k) /\
+      (forall k, may_fit s k = true -> may_fit s' k = true) /\
+      (forall m, m < n -> (goodT s m \/ dstar j m) -> goodT s' m) /\
+      notified s' j /\
+      (forall i, i <> j -> i < n -> Q s i -> Q s' i) /\
+      fc_ok s'.
+  Proof.
+    induction fuel as [|f IH]; intros j d s s' H Hjn Hsj Hfc; [discriminate|].
+    rewrite do_fit_unfold in H.
+    set (s1 := set_params s j d (F j d (params s j) (params s))) in *.
+    assert (L : forall rest acc r, fold_left (loop_body f j) rest (Ok acc) = Ok r ->
+              incl rest (dependents j) ->
+              (forall k, saved acc k = saved s k) ->
+              (forall k, may_fit s k = true -> may_fit acc k = true) ->
+              fc_ok acc ->
+              (forall m, m < n -> (goodT s m \/ dstar j m) -> (forall k, In k rest -> ~ dstar k m) -> goodT acc m) ->
+              (forall k, In k (dependents j) -> ~ In k rest -> may_fit acc k = true) ->
+              (forall i, i <> j -> i < n -> Q s i -> Q acc i) ->
+              (forall k, saved r k = saved s k) /\
+              (forall k, may_fit s k = true -> may_fit r k = true) /\
+              (forall m, m < n -> (goodT s m \/ dstar j m) -> goodT r m) /\
+              (forall k, In k (dependents j) -> may_fit r k = true) /\
+              (forall i, i <> j -> i < n -> Q s i -> Q r i) /\
+              fc_ok r).
+    { induction rest as [|k rest IHr]; intros acc r Hr Hincl Hsv Hmf Hfa Gm Hnt HQ.
+      - simpl in Hr. inversion Hr; subst. repeat split; auto.
+      - assert (Hkd : In k (dependents j)) by (apply Hincl; left; reflexivity).
+        assert (Hkn : k < n) by (apply dependents_spec in Hkd; tauto).
+        assert (Hjk : In j (conds k)) by (apply dependents_spec in Hkd; tauto).
+        assert (Hkj : k <> j) by (apply conds_lt in Hjk; lia).
+        assert (Hincl' : incl rest (dependents j)) by (intros x Hx; apply Hincl; right; exact Hx).
+        cbn [fold_left] in Hr. unfold loop_body at 2 in Hr. cbn [bind] in Hr.
+        rewrite (callback_eq _ k j acc Hjk Hfa) in Hr.
+        assert (Hfa' : fc_ok (add_fitted acc k j)) by (apply fc_ok_add; auto).
+        destruct (saved acc k) as [dk|] eqn:Hk.
+        + fold (cb_state acc k j dk) in Hr.
+          assert (Hfc3 : fc_ok (cb_state acc k j dk)) by exact Hfa'.
+          assert (Hs3 : saved (cb_state acc k j dk) k = Some dk) by (cbn; apply upd_same).
+          assert (Hsv3 : forall x, saved (cb_state acc k j dk) x = saved acc x).
+          { intros x. cbn. destruct (Nat.eq_dec x k) as [->|Hx]; [rewrite upd_same; auto|rewrite upd_other; auto]. }
+          assert (Hmf3 : forall x, may_fit acc x = true -> may_fit (cb_state acc k j dk) x = true).
+          { intros x Hx. cbn. unfold upd. destruct (Nat.eqb x k); auto. }
+          assert (G3 : forall m, m <> k -> goodT acc m -> goodT (cb_state acc k j dk) m).
+          { intros m Hm G. apply (goodT_transfer acc); auto. cbn. rewrite upd_other by exact Hm. auto. }
+          destruct (do_fit f k dk (cb_state acc k j dk)) as [a2| |] eqn:Hd;
+            [|rewrite fold_fuel in Hr; discriminate|rewrite fold_assert in Hr; discriminate].
+          destruct (IH _ _ _ _ Hd Hkn Hs3 Hfc3) as [A1 [A2 [A3 [A5 [A6 A7]]]]].
+          assert (Mono : forall x, may_fit acc x = true -> may_fit a2 x = true) by (intros x Hx; apply A2; auto).
+          apply (IHr a2 r Hr Hincl').
+          * intros x. rewrite A1, Hsv3. apply Hsv.
+          * intros x Hx. apply Mono. auto.
+          * exact A7.
+          * intros m Hmn Hor Hnr. apply A3; [exact Hmn|]. destruct (dstar_dec k m) as [Dk|Dk]; [right; exact Dk|left].
+            assert (Hmk : m <> k) by (intro; subst; apply Dk; left; reflexivity).
+            apply G3; [exact Hmk|]. apply Gm; auto. intros k' [<-|Hk']; [exact Dk|apply Hnr; exact Hk'].
+          * intros x Hx Hnr. destruct (Nat.eq_dec x k) as [->|Hxk].
+            { apply A2. cbn. apply upd_same. }
+            apply Mono. apply Hnt; auto. simpl. intros [E|E]; [congruence|auto].
+          * intros i Hij Hin Hq. destruct (Nat.eq_dec i k) as [->|Hik].
+            { intros _. exact A5. }
+            apply A6; auto. intros [F1 F2]. rewrite Hsv3 in F2. cbn in F1. rewrite upd_other in F1 by exact Hik.
+            apply (notified_mono acc); [exact Hmf3|]. apply HQ; auto. split; auto.
+        + set (s2 := DepProtocol.set_may P D (DepProtocol.add_fitted P D acc k j) k) in *.
+          assert (Mono : forall x, may_fit acc x = true -> may_fit s2 x = true).
+          { intros x Hx. cbn. unfold upd. destruct (Nat.eqb x k); auto. }
+          apply (IHr s2 r Hr Hincl').
+          * intros x. cbn. apply Hsv.
+          * intros x Hx. apply Mono; auto.
+          * exact Hfa'.
+          * intros m Hmn Hor Hnr. destruct (dstar_dec k m) as [Dk|Dk].
+            { (* k never received data: nothing below k is closed *)
+              intros _ Hc. exfalso. apply (Hc k Dk). cbn. exact Hk. }
+            assert (Hmk : m <> k) by (intro; subst; apply Dk; left; reflexivity).
+            apply (goodT_transfer acc); auto; [cbn; rewrite upd_other; auto|].
+            apply Gm; auto. intros k' [<-|Hk']; [exact Dk|apply Hnr; exact Hk'].
+          * intros x Hx Hnr. destruct (Nat.eq_dec x k) as [->|Hxk].
+            { cbn. apply upd_same. }
+            apply Mono. apply Hnt; auto. simpl. intros [E|E]; [congruence|auto].
+          * intros i Hij Hin Hq. destruct (Nat.eq_dec i k) as [->|Hik].
+            { intros [_ Hs]. exfalso. apply Hs. exact Hk. }
+            intros [F1 F2]. cbn in F1, F2. rewrite upd_other in F1 by exact Hik.
+            apply (notified_mono acc); [exact Mono|]. apply HQ; auto. split; auto. }
+    destruct (L (dependents j) s1 s' H) as [B1 [B2 [B3 [B5 [B6 B7]]]]].
+    - apply incl_refl.
+    - intros k. reflexivity.
+    - intros k Hk. exact Hk.
+    - exact Hfc.
+    - intros m Hmn Hor Hnone. destruct (Nat.eq_dec m j) as [->|Hmj].
+      + intros [Hf Hs] _ d' Hd'. cbn in *. rewrite Hsj in Hd'. inversion Hd'; subst d'.
+        exists (params s j). rewrite upd_same. apply F_extT. intros i Hi. rewrite upd_other; auto.
+        apply anc_lt in Hi. lia.
+      + assert (Na : ~ anc j m).
+        { intros A. destruct (anc_first j m A Hmn) as [k [Hk Dk]]. exact (Hnone k Hk Dk). }
+        destruct Hor as [G|[E|A]]; [|congruence|contradiction]. apply goodT_set_params; auto.
+    - intros k Hk Hnot. contradiction.
+    - intros i Hij Hin Hq. exact Hq.
+    - repeat split; auto.
+      intros k Hk Hi. apply B5. apply dependents_spec. split; auto.
+  Qed.
+
+  Definition InvT (s : st) := (forall k, k < n -> goodT s k) /\ (forall i, i < n -> Q s i) /\
+                      (forall k, conds k = [] -> may_fit s k = true) /\ fc_ok s.
+
+  Lemma InvT_init : InvT (init p0).
+  Proof. repeat split.
+    - intros k _ [_ Hs]. cbn in Hs. congruence.
+    - intros i _ [_ Hs]. cbn in Hs. congruence.
+    - intros k Hk. cbn. now rewrite Hk.
+    - intros k c Hc. cbn in Hc. contradiction. Qed.
+
+  (* with the notification invariant, a function all of whose ancestors have data may be fitted *)
+  Lemma cl_may_fit (s : st) : (forall i, i < n -> Q s i) -> (forall k, conds k = [] -> may_fit s k = true) ->
+    forall k, k < n -> cl s k -> may_fit s k = true.
+  Proof.
+    intros I2 I3 k. induction k as [k IHk] using lt_wf_ind. intros Hk Hc.
+    destruct (conds k) as [|i l] eqn:Ec; [apply I3; exact Ec|].
+    assert (Hi : In i (conds k)) by (rewrite Ec; left; reflexivity).
+    pose proof (conds_lt _ _ Hi) as Hlt.
+    assert (Ci : cl s i).
+    { intros a [->|A]; apply Hc; right; [apply anc_direct; exact Hi|eapply anc_up; eauto]. }
+    apply (I2 i); [lia| |exact Hk|exact Hi]. split; [apply IHk; auto; lia|apply Ci; left; reflexivity].
+  Qed.
+
+  Lemma fit_InvT j d s : j < n -> InvT s -> exists s', fit j d s = Ok s' /\ InvT s' /\
+      saved s' j = Some d /\ (forall k, k <> j -> saved s' k = saved s k).
+  Proof.
+    intros Hj [I1 [I2 [I3 I4]]]. unfold DepProtocol.fit, DepProtocol.fit_body. set (s0 := set_saved s j d).
+    assert (S0 : saved s0 j = Some d) by (cbn; apply upd_same).
+    assert (S0' : forall k, k <> j -> saved s0 k = saved s k) by (intros k Hk; cbn; apply upd_other; exact Hk).
+    assert (G0 : forall m, m < n -> ~ dstar j m -> goodT s0 m).
+    { intros m Hmn Hd. apply (goodT_transfer s); auto. intros a Ha. apply S0'. intro; subst a. exact (Hd Ha). }
+    assert (Q0 : forall i, i <> j -> i < n -> Q s0 i).
+    { intros i Hi Hin [Hf Hs]. cbn in Hs. rewrite upd_other in Hs by exact Hi. apply (I2 i Hin (conj Hf Hs)). }
+    assert (F0 : fc_ok s0) by exact I4.
+    destruct (may_fit s0 j) eqn:Hm.
+    - destruct (do_fit_some (S n) j d s0) as [s' E]; [lia|exact Hj|]. exists s'. split; [exact E|].
+      destruct (do_fit_specT _ _ _ _ _ E Hj S0 F0) as [A1 [A2 [A3 [A5 [A6 A7]]]]].
+      split; [|split].
+      + repeat split.
+        * intros k Hk. apply A3; [exact Hk|]. destruct (dstar_dec j k) as [Dj|Dj]; [right; exact Dj|left; apply G0; auto].
+        * intros i Hi. destruct (Nat.eq_dec i j) as [->|Hij].
+          { intros _. exact A5. }
+          apply A6; auto.
+        * intros k Hk. apply A2. cbn. apply I3. exact Hk.
+        * exact A7.
+      + rewrite A1. exact S0.
+      + intros k Hk. rewrite A1. apply S0'. exact Hk.
+    - exists s0. split; [reflexivity|]. split; [|split; auto].
+      assert (Q0all : forall i, i < n -> Q s0 i).
+      { intros i Hi. destruct (Nat.eq_dec i j) as [->|Hij]; [|apply Q0; auto]. intros [Hf _]. congruence. }
+      repeat split.
+      + intros k Hk. destruct (dstar_dec j k) as [Dj|Dj]; [|apply G0; auto].
+        (* j may not be fitted although it has data: then not all of j's ancestors have data, so k is not closed *)
+        intros _ Hc. exfalso.
+        assert (Cj : cl s0 j).
+        { intros a Ha. apply Hc. destruct Dj as [->|A]; [exact Ha|]. destruct Ha as [->|A']; [right; exact A|right; eapply anc_trans; eauto]. }
+        pose proof (cl_may_fit s0 Q0all (fun k0 Hk0 => I3 k0 Hk0) j Hj Cj) as M. congruence.
+      + exact Q0all.
+      + intros k Hk. cbn. apply I3. exact Hk.
+      + exact F0.
+  Qed.
+
+  Lemma run_InvT : forall ops s, (forall j d, In (j, d) ops -> j < n) -> InvT s ->
+    exists s', run ops s = Ok s' /\ InvT s' /\ (forall j, saved s' j = last_data ops j (saved s j)).
+  Proof.
+    induction ops as [|[j d] ops IH]; intros s Hb I.
+    - exists s. simpl. auto.
+    - destruct (fit_InvT j d s) as [s1 [E [I1 [S1 S2]]]]; [apply (Hb j d); left; reflexivity|exact I|].
+      destruct (IH s1) as [s' [R [I' L]]]; [intros; eapply Hb; right; eauto|exact I1|].
+      exists s'. simpl. rewrite E. cbn [bind]. split; [exact R|]. split; [exact I'|].
+      intros k. rewrite L. f_equal. destruct (Nat.eqb j k) eqn:Ejk.
+      + apply Nat.eqb_eq in Ejk. subst. exact S1.
+      + apply Nat.eqb_neq in Ejk. apply S2. auto.
+  Qed.
+
+  (* HISTORY THEOREM, partial histories included: whatever the order of fit calls and re-fits, every function that
+     was given data and all of whose ancestors were given data ends with the result of an optimiser run on its LAST
+     data against the FINAL parameters of everything it reads -- whether or not the other functions ever got data *)
+  Theorem history_closed : forall ops s', (forall j d, In (j, d) ops -> j < n) ->
+    run ops (init p0) = Ok s' ->
+    forall j, j < n -> (forall a, dstar a j -> last_data ops a None <> None) ->
+    exists d p, last_data ops j None = Some d /\ params s' j = F j d p (params s').
+  Proof.
+    intros ops s' Hb R j Hj Hc. destruct (run_InvT ops (init p0) Hb InvT_init) as [s2 [R2 [[I1 [I2 [I3 I4]]] L]]].
+    rewrite R in R2. inversion R2; subst s2. clear R2.
+    assert (Sv : forall k, saved s' k = last_data ops k None) by (intros k; rewrite L; reflexivity).
+    assert (C : cl s' j) by (intros a Ha; rewrite Sv; apply Hc; exact Ha).
+    assert (Fj : fitted s' j) by (split; [apply (cl_may_fit s' I2 I3 j Hj C)|apply C; left; reflexivity]).
+    destruct (last_data ops j None) as [d|] eqn:E; [|exfalso; apply (Hc j); [left; reflexivity|exact E]].
+    destruct (I1 j Hj Fj C d) as [p Hp]; [rewrite Sv; exact E|]. exists d, p. split; [reflexivity|exact Hp].
+  Qed.
+
+  Theorem run_okT : forall ops, (forall j d, In (j, d) ops -> j < n) -> exists s', run ops (init p0) = Ok s'.
+  Proof. intros ops Hb. destruct (run_InvT ops (init p0) Hb InvT_init) as [s' [R _]]. eauto. Qed.
+
+  Theorem subset_test_vacuousT : forall ops s, (forall j d, In (j, d) ops -> j < n) -> run ops (init p0) = Ok s ->
+    forall k c, In c (conds k) -> subset_as_written conds (fitted_conds (add_fitted s k c) k) k = true.
+  Proof.
+    intros ops s Hb R k c Hc. destruct (run_InvT ops (init p0) Hb InvT_init) as [s2 [R2 [[_ [_ [_ I4]]] _]]].
+    rewrite R in R2. inversion R2; subst s2. apply subset_test_true; auto.
+  Qed.
+
+  Corollary history_allT : forall ops s', (forall j d, In (j, d) ops -> j < n) ->
+    run ops (init p0) = Ok s' -> (forall j, j < n -> last_data ops j None <> None) ->
+    forall j, j < n -> exists d p, last_data ops j None = Some d /\ params s' j = F j d p (params s').
+  Proof.
+    intros ops s' Hb R All j Hj. apply (history_closed ops s' Hb R j Hj).
+    intros a [->|A]; apply All; [exact Hj|apply anc_lt in A; lia].
+  Qed.
 
   (* ORDER INDEPENDENCE for an idealised optimiser (result does not depend on the start value):
      two histories that end with the same last data per function end with the same parameters. *)
@@ -359,6 +684,17 @@ Section Protocol.
     destruct (H1 j Hj) as [d1 [p1 [D1 E1]]]. destruct (H2 j Hj) as [d2 [p2 [D2 E2]]].
     rewrite D1 in D2. inversion D2; subst d2. rewrite E1, E2.
     rewrite (F_start j d1 p1 p2 e1). apply F_ext. intros i Hi. pose proof (conds_lt _ _ Hi). apply IHj; lia.
+  Qed.
+
+  Theorem final_params_uniqueT : forall (e1 e2 : nat -> P) (ds : nat -> option D),
+    (forall j, j < n -> exists d p, ds j = Some d /\ e1 j = F j d p e1) ->
+    (forall j, j < n -> exists d p, ds j = Some d /\ e2 j = F j d p e2) ->
+    forall j, j < n -> e1 j = e2 j.
+  Proof.
+    intros e1 e2 ds H1 H2 j. induction j as [j IHj] using lt_wf_ind. intros Hj.
+    destruct (H1 j Hj) as [d1 [p1 [D1 E1]]]. destruct (H2 j Hj) as [d2 [p2 [D2 E2]]].
+    rewrite D1 in D2. inversion D2; subst d2. rewrite E1, E2.
+    rewrite (F_start j d1 p1 p2 e1). apply F_extT. intros i Hi. pose proof (anc_lt _ _ Hi). apply IHj; lia.
   Qed.
 
 End Protocol.
@@ -389,6 +725,31 @@ Section Order.
       destruct (history P D n conds conds_lt F F_ext p0' ops2 s2 B2 R2 All2 j Hj) as [d [p [E1 E2]]]. eauto.
   Qed.
 End Order.
+
+Section OrderT.
+  Variables P D : Type.
+  Variable n : nat.
+  Variable conds : nat -> list nat.
+  Hypothesis conds_lt : forall j i, In i (conds j) -> i < j.
+  Variable F : nat -> D -> P -> (nat -> P) -> P.
+  Hypothesis F_extT : forall j d p e1 e2, (forall i, anc conds i j -> e1 i = e2 i) -> F j d p e1 = F j d p e2.
+  Hypothesis F_start : forall j d p p' e, F j d p e = F j d p' e.
+
+  Theorem order_independentT : forall p0 p0' ops1 ops2 s1 s2,
+    (forall j d, In (j, d) ops1 -> j < n) -> (forall j d, In (j, d) ops2 -> j < n) ->
+    run P D n conds F ops1 (init P D conds p0) = Ok s1 -> run P D n conds F ops2 (init P D conds p0') = Ok s2 ->
+    (forall j, j < n -> last_data D ops1 j None <> None) ->
+    (forall j, j < n -> last_data D ops1 j None = last_data D ops2 j None) ->
+    forall j, j < n -> params s1 j = params s2 j.
+  Proof.
+    intros p0 p0' ops1 ops2 s1 s2 B1 B2 R1 R2 All Same.
+    assert (All2 : forall j, j < n -> last_data D ops2 j None <> None) by (intros j Hj; rewrite <- Same; auto).
+    apply (final_params_uniqueT P D n conds conds_lt F F_extT F_start (params s1) (params s2) (fun j => last_data D ops1 j None)).
+    - intros j Hj. destruct (history_allT P D n conds conds_lt F p0 F_extT ops1 s1 B1 R1 All j Hj) as [d [p [E1 E2]]]. eauto.
+    - intros j Hj. rewrite (Same j Hj).
+      destruct (history_allT P D n conds conds_lt F p0' F_extT ops2 s2 B2 R2 All2 j Hj) as [d [p [E1 E2]]]. eauto.
+  Qed.
+End OrderT.
 
 (* ------------------------------------------------------------------ bounds, feasible set *)
 Section BoundsProofs.
@@ -447,6 +808,15 @@ Section BoundsProofs.
       + intros bs E. subst bounds. apply box_declared. exact Fz.
       + intros cs E. discriminate.
   Qed.
+  (* which engine is called: curve_fit iff no constraints are declared (with sigma iff a weights callable is given,
+     with the converted box iff bounds are declared); SLSQP with the raw bounds and ALL declared constraints otherwise;
+     constraints together with weights are refused *)
+  Lemma dispatch_paths hw bounds :
+    dispatch T neg_inf pos_inf hw bounds None =
+      Call (mkcall T CurveFit hw (match bounds with Some bs => Some (DepProtocol.convert_bounds T neg_inf pos_inf bs) | None => None end) None []) /\
+    (forall cs, dispatch T neg_inf pos_inf true bounds (Some cs) = NotImplemented) /\
+    (forall cs, dispatch T neg_inf pos_inf false bounds (Some cs) = Call (mkcall T MinimizeSLSQP false None bounds cs)).
+  Proof. repeat split. Qed.
 End BoundsProofs.
 
 (* ------------------------------------------------------------------ linear shapes: normal equations *)
@@ -540,8 +910,19 @@ Section LinearLSQ.
 End LinearLSQ.
 
 (* ------------------------------------------------------------------ the executable (tagging) instance meets the hypotheses *)
-Lemma Ftag_ext conds : forall j d p e1 e2, (forall i, In i (conds j) -> e1 i = e2 i) -> Ftag conds j d p e1 = Ftag conds j d p e2.
-Proof. intros j d p e1 e2 H. unfold Ftag. f_equal. apply map_ext_in. exact H. Qed.
+Lemma raw_anc conds : forall fuel j i, In i (raw_ancestors conds fuel j) -> anc conds i j.
+Proof.
+  induction fuel as [|f IH]; intros j i H; [contradiction|]. cbn in H. apply in_flat_map in H.
+  destruct H as [c [Hc [->|H]]]; [apply anc_direct; exact Hc|]. eapply anc_up; [exact Hc|]. apply IH. exact H.
+Qed.
+
+Lemma ancestors_anc conds j i : In i (ancestors conds j) -> anc conds i j.
+Proof. unfold ancestors. intros H. apply filter_In in H. destruct H as [_ H]. apply existsb_exists in H.
+  destruct H as [x [Hx E]]. apply Nat.eqb_eq in E. subst x. eapply raw_anc; eauto. Qed.
+
+(* the tagging optimiser reads exactly the ancestors *)
+Lemma Ftag_extT conds : forall j d p e1 e2, (forall i, anc conds i j -> e1 i = e2 i) -> Ftag conds j d p e1 = Ftag conds j d p e2.
+Proof. intros j d p e1 e2 H. unfold Ftag. f_equal. apply map_ext_in. intros i Hi. apply H. apply ancestors_anc. exact Hi. Qed.
 
 Definition table_ok (ctbl : list (list nat)) : bool :=
   forallb (fun j => forallb (fun i => i <? j) (lookup ctbl j)) (seq 0 (length ctbl)).
@@ -554,13 +935,13 @@ Proof.
   - unfold lookup in Hi. rewrite nth_overflow in Hi by lia. contradiction.
 Qed.
 
-(* history theorem for the very function the correspondence check evaluates *)
+(* history theorem for the very function the correspondence check evaluates: partial histories included *)
 Theorem history_tag : forall n ctbl ops s, table_ok ctbl = true ->
   (forall j d, In (j, d) ops -> j < n) -> run_tag n ctbl ops = Ok s ->
-  (forall j, j < n -> last_data nat ops j None <> None) ->
-  forall j, j < n -> exists d p, last_data nat ops j None = Some d /\
-                               params s j = Fitted j d p (map (params s) (lookup ctbl j)).
+  forall j, j < n -> (forall a, dstar (lookup ctbl) a j -> last_data nat ops a None <> None) ->
+  exists d p, last_data nat ops j None = Some d /\
+              params s j = Fitted j d p (map (params s) (ancestors (lookup ctbl) j)).
 Proof.
-  intros n ctbl ops s T B R All j Hj.
-  exact (history tag nat n (lookup ctbl) (table_ok_lt ctbl T) (Ftag (lookup ctbl)) (Ftag_ext (lookup ctbl)) Start ops s B R All j Hj).
+  intros n ctbl ops s T B R j Hj C.
+  exact (history_closed tag nat n (lookup ctbl) (table_ok_lt ctbl T) (Ftag (lookup ctbl)) Start (Ftag_extT (lookup ctbl)) ops s B R j Hj C).
 Qed.
